@@ -39,12 +39,12 @@ inductive Event
 deriving Repr, DecidableEq
 
 structure St where
-  limit : Nat
+  limit : Int   -- `maxTopicSubscriptionsPerClient` is an `int`: a negative limit is "reached" by every new topic
   subs : AMap (AMap Nat)
   topics : AMap Nat
 deriving Repr
 
-def init (limit : Nat) : St := { limit := limit, subs := [], topics := [] }
+def init (limit : Int) : St := { limit := limit, subs := [], topics := [] }
 
 inductive Op
   | connect (c : Nat)
@@ -117,7 +117,7 @@ def step (s : St) : Op → St × Out
         let r := bumpTopic { s with subs := s.subs.set c (m.set t (n + 1)) } t
         (r.1, { ret := some true, events := r.2 ++ [.subscribed c t] })
       | none =>
-        if s.limit ≠ 0 ∧ s.limit ≤ m.length + 1 then
+        if s.limit ≠ 0 ∧ s.limit ≤ (m.length : Int) + 1 then
           let r := cleanup s c
           (r.1, { ret := some false, events := r.2.2 ++ [.drop c, .disconnected c] })
         else
@@ -170,7 +170,7 @@ def subscribeOld (s : St) (c t : Nat) : St × Out :=
       (r.1, { ret := some true, events := r.2 ++ [.subscribed c t] })
     | none =>
       let s1 := { s with subs := s.subs.set c (m.set t 1) }
-      if s.limit ≠ 0 ∧ s.limit ≤ (m.set t 1).length then
+      if s.limit ≠ 0 ∧ s.limit ≤ ((m.set t 1).length : Int) then
         let r := cleanup s1 c
         (r.1, { ret := some false, events := r.2.2 ++ [.drop c, .disconnected c] })
       else
@@ -263,9 +263,12 @@ def parseOp : List String → Option Op
 
 def stepLine (s : St) (toks : List String) : St × String :=
   match toks with
-  | "new" :: l :: _ => match l.toNat? with
+  | "new" :: l :: _ => match l.toInt? with
     | some l => (init l, "ok")
     | none => (s, "bad-op")
+  | ["state"] =>
+    let subs := (sortBy (·.1) s.subs).map (fun p => s!"{p.1}:{showKVs p.2}")
+    (s, s!"limit={s.limit} subs=[{" ".intercalate subs}] topics={showKVs s.topics}")
   | _ => match parseOp toks with
     | some op => let r := step s op; (r.1, showOut r.2)
     | none => (s, "bad-op")
